@@ -23,7 +23,7 @@
 
 /* ---- H1: schedule perturbation ---------------------------------------- */
 
-enum { M_OFF, M_JITTER, M_STRAGGLER, M_SLOWTHREAD, M_HOLDBLOCK };
+enum { M_OFF, M_JITTER, M_STRAGGLER, M_SLOWTHREAD, M_HOLDBLOCK, M_GAPS };
 static unsigned hold_count;
 static uint64_t hold_key;       /* seed % 3 unless LBZIP2_VERIF_HOLDKEY is set */
 
@@ -106,6 +106,17 @@ verif_yield(int site, uint64_t key)
     if (site == VS_COMPUTE_BEGIN && key == hold_key &&
         __atomic_fetch_add(&hold_count, 1u, __ATOMIC_RELAXED) < 2u)
       nap(1000u * (sched_arg ? sched_arg : 200u));
+    break;
+
+  case M_GAPS:
+    /* Long naps (default 2 ms) in the lock-free gaps between two critical
+       sections: whatever a thread decided under one lock and acts upon under
+       the next one is exposed to everything the other threads can do. */
+    if (site == VS_SCHED_UNLOCK || site == VS_SINK_WRITE ||
+        site == VS_SRC_RELEASE) {
+      if (rnd() % (4u + sched_seed % 5u) == 0)
+        nap(sched_arg ? 1000u * sched_arg : 2000u);
+    }
     break;
 
   case M_STRAGGLER:
@@ -313,6 +324,8 @@ verif_init(void)
         sched_mode = M_STRAGGLER;
       else if (strcmp(mode, "slowthread") == 0)
         sched_mode = M_SLOWTHREAD;
+      else if (strcmp(mode, "gaps") == 0)
+        sched_mode = M_GAPS;
       else if (strcmp(mode, "holdblock") == 0) {
         const char *k = getenv("LBZIP2_VERIF_HOLDKEY");
 
